@@ -17,3 +17,8 @@ pub fn vx_is_break(t: &Token) -> (r: bool) ensures r == is_break_tok(*t) { unimp
 /// the two nodes this arm builds (every other variant of the real enum collapsed)
 pub enum Node { Break, Continue, VxOther(VxOpaque) }
 pub struct Parser { pub body_contexts: Vec<BodyContext>, pub current_span: Span, pub vx_opaque: VxOpaque }
+/// `Vec<BodyContext>::contains(&x)` (std: some element == x; derived PartialEq of a field-less enum)
+#[verifier::external_body]
+pub fn vx_ctx_contains(v: &Vec<BodyContext>, x: &BodyContext) -> (r: bool)
+    ensures r == exists|i: int| 0 <= i < v@.len() && #[trigger] v@[i] == *x
+{ unimplemented!() }
